@@ -80,7 +80,7 @@ def shard(ctx):
             ctx.inconclusive(f'oracle rejects one of its own "valid" axioms: {tb.pretty(ax)}')
             return
     seen = set()
-    nstreams = ctx.scale(6400, 200000)
+    nstreams = ctx.scale(6400, 100000)
     for k in range(nstreams):
         with_theory = rng.random() < 0.3
         sess = gs.CheckerSession(hx, 0 if with_theory else 2)
